@@ -36,6 +36,8 @@ def base_case(
     plan_opts = dict(plan_opts or {})
     builtin = plan_opts.pop("builtin", 0.0)  # only the generic interruption families ask for bluesky's own plans
     prelude = plan_opts.pop("prelude", 0.0)
+    clear = plan_opts.pop("clear", 0.0)
+    cleanup_checkpoint = plan_opts.pop("cleanup_checkpoint", 0.0)
     preprocessors = []
     if rng.random() < builtin:
         # bluesky's own plans (stage/run decorators, per-step checkpoints), optionally under the SupplementalData
@@ -52,8 +54,17 @@ def base_case(
             if pg.flyers and rng.random() < 0.5 and not any(n.get("name") == "fly" for n in body):
                 sd["flyers"] = [{"dev": pg.flyers[0]}]
             preprocessors.append(sd)
+        if rng.random() < cleanup_checkpoint:
+            # clean-up written as a plan of its own, with its checkpoint (bluesky's plans drop an open event bundle on
+            # their way out, so the checkpoint is legal wherever the plan is interrupted)
+            S_ = pg.S
+            body = [{"op": "try", "site": S_(), "body": body, "finally": [msg(S_, "null"), msg(S_, "checkpoint"), msg(S_, "null")]}]
     else:
         body = pg.generic(**plan_opts)
+        if clear > rng.random():
+            # the rest of the plan is a non-resumable section that still contains implicit checkpoints (unmonitor,
+            # close_run, unstage): an interruption there ends the plan, it never pauses it
+            body = gen.nonresumable_tail(rng, body, pg.S)
     S = pg.S
     case = {
         "prop": pid,
@@ -189,8 +200,10 @@ WINDOW_OF = {"pause": "pausing", "dpause": "pausing", "abort": "aborting", "stop
 def interruption_cases(pid, seed, tier, *, K=(10, 16), kinds=None, dev_faults=0.0, decisions=None, rng=None, base=None, **base_opts):
     rng = rng or gen.rng_for(pid, seed)
     if base is None:
-        base_opts["plan_opts"] = {"builtin": 0.2, "prelude": 0.15, **(base_opts.get("plan_opts") or {})}
+        base_opts["plan_opts"] = {"builtin": 0.2, "prelude": 0.15, "clear": 0.12, "cleanup_checkpoint": 0.4, **(base_opts.get("plan_opts") or {})}
         base = base_case(pid, seed, rng, **base_opts)
+        if rng.random() < 0.3:
+            base["re"]["context_managers"] = "single_use"  # a user-supplied context manager around every blocking stretch
     dry, dv, n = dry_run(base)
     yield base
     ci = main_index(base)
@@ -232,9 +245,43 @@ def interruption_cases(pid, seed, tier, *, K=(10, 16), kinds=None, dev_faults=0.
         if rng.random() < dev_faults:
             add_device_faults(rng, c, dv, k=rng.choice([1, 1, 2]))
         yield c
+    yield from nonresumable_cases(rng, base, dv, kinds)
     if dev_faults > 0:
         yield from engine_side_cases(rng, base, dv)
         yield from pause_bookkeeping_cases(rng, base, dv, n)
+
+
+IMPLICIT_CHECKPOINTS = ("stage", "unstage", "monitor", "unmonitor", "subscribe", "unsubscribe", "close_run")
+
+
+def nonresumable_cases(rng, base, dv, kinds, k=2):
+    """Plans with a non-resumable tail: a pause / suspension placed after `clear_checkpoint`, in particular after one
+    of the implicit checkpoints that follow it (they must not make the plan resumable again)."""
+    ci = main_index(base)
+    ncalls_before = sum(1 for s in base["script"][:ci] if s["do"] == "call")
+    calls = [c for c in dv.calls if c.api == "call"]
+    if ncalls_before >= len(calls):
+        return
+    ms = calls[ncalls_before].of("msg")
+    cl = next((i for i, m in enumerate(ms) if m.d["cmd"] == "clear_checkpoint"), None)
+    if cl is None:
+        return
+    after = [m.d["n"] for m in ms[cl + 1 : -1]]
+    implicit = [m.d["n"] for m in ms[cl + 1 : -1] if m.d["cmd"] in IMPLICIT_CHECKPOINTS]
+    for j in range(k):
+        pool = implicit if implicit and (j == 0 or rng.random() < 0.5) else after
+        if not pool:
+            continue
+        c = copy.deepcopy(base)
+        c["variant"] = f"nonresumable-{j}"
+        do = "trip" if ("trip" in kinds and rng.random() < 0.4) else "pause"
+        inj = {"id": "nr", "at": {"msg": rng.choice(pool), "plus": rng.choice([0, 0, 1])}, "do": do}
+        if do == "trip":
+            inj["args"] = trip_args(rng)
+        c["script"][ci]["inject"] = [inj]
+        c["script"][ci]["decisions"] = [{"do": "resume"}, {"do": "resume"}]
+        c["script"][ci]["settle"] = "idle"
+        yield c
 
 
 def pause_bookkeeping_cases(rng, base, dv, n, k=2):
